@@ -43,7 +43,20 @@ func (r *Replayer) Replay(process func(record []byte) error) (err error) {
 		}
 	}()
 
-	for _, path := range walFiles {
+	for i, path := range walFiles {
+		isLastFile := i == len(walFiles)-1
+		// a process that died right after creating the newest WAL file leaves it without (or with a partial) file header,
+		// such a file can't contain any record yet
+		if isLastFile {
+			stat, err := os.Stat(path)
+			if err != nil {
+				return fmt.Errorf("error while stat the WAL file under '%s': %w", path, err)
+			}
+			if stat.Size() < recordio.FileHeaderSizeBytes {
+				continue
+			}
+		}
+
 		reader, err := r.walOptions.readerFactory(path)
 		if err != nil {
 			return fmt.Errorf("error while creating WAL reader under '%s': %w", path, err)
@@ -59,6 +72,12 @@ func (r *Replayer) Replay(process func(record []byte) error) (err error) {
 			bytes, err := reader.ReadNext()
 			// io.EOF signals that no records are left to be read
 			if errors.Is(err, io.EOF) {
+				break
+			}
+
+			// the last record of the newest file can be cut off when the process died while appending it,
+			// it was never acknowledged and marks the end of the log
+			if isLastFile && errors.Is(err, io.ErrUnexpectedEOF) {
 				break
 			}
 
